@@ -79,8 +79,145 @@ package jsonata
 //@ func eval
 //@   requires nn(node)
 //@   ensures r1 != nil ==> !valid(r0)
+//@   ensures (r1 == nil && valid(r0)) ==> canif(r0)
 //@   assigns heap
 //@   trusted
+
+// --- C03: comparison operators ----------------------------------------------------------------------
+// Statement: = and != compare numbers, strings and booleans by value (arrays/objects structurally);
+// < <= > >= order two numbers numerically or two strings by code point; a missing operand makes every
+// comparison false; an ordering with an operand that is neither number nor string, or between a number
+// and a string, is an error of the corresponding kind.
+
+//@ pred isStrV(v reflect.Value) = kind(res(v)) == 24
+//@ pred isBoolV(v reflect.Value) = kind(res(v)) == 1
+//@ pred ifaceable(v reflect.Value) = valid(v) ==> canif(v)
+
+//@ func needComparableTypes
+//@   props C03 C09
+//@   ensures result == !(op == jparse.ComparisonEqual || op == jparse.ComparisonNotEqual || op == jparse.ComparisonIn)
+//@   assigns nothing
+
+//@ func eq
+//@   props C03 C09
+//@   requires ifaceable(lhs) && ifaceable(rhs)
+//@   ensures [C03:numbers-by-value] (isF64V(lhs) && isF64V(rhs)) ==> result == (fval(res(lhs)) == fval(res(rhs)))
+//@   ensures [C03:number-vs-other] (isNumV(lhs) && !isNumV(rhs)) ==> !result
+//@   ensures [C03:strings-by-value] (isStrV(lhs) && isStrV(rhs)) ==> result == streq(sval(res(lhs)), sval(res(rhs)))
+//@   ensures [C03:string-vs-other] (isStrV(lhs) && !isStrV(rhs)) ==> !result
+//@   ensures [C03:booleans-by-value] (isBoolV(lhs) && isBoolV(rhs)) ==> result == (bval(res(lhs)) == bval(res(rhs)))
+//@   ensures [C03:boolean-vs-other] (isBoolV(lhs) && !isBoolV(rhs)) ==> !result
+//@   ensures [defines] result == ufb_valeq(lhs, rhs)
+//@   assigns nothing
+
+//@ func lt
+//@   props C03 C09
+//@   requires (isNumV(lhs) && isNumV(rhs)) || (isStrV(lhs) && isStrV(rhs))
+//@   ensures [C03:numeric-order] (isF64V(lhs) && isF64V(rhs)) ==> result == (fval(res(lhs)) < fval(res(rhs)))
+//@   ensures [C03:string-order] (isStrV(lhs) && isStrV(rhs)) ==> result == strlt(sval(res(lhs)), sval(res(rhs)))
+//@   assigns nothing
+
+//@ func lte
+//@   props C03 C09
+//@   requires ((isNumV(lhs) && isNumV(rhs)) || (isStrV(lhs) && isStrV(rhs))) && ifaceable(lhs) && ifaceable(rhs)
+//@   ensures [C03:numeric-order] (isF64V(lhs) && isF64V(rhs)) ==> result == (fval(res(lhs)) <= fval(res(rhs)))
+//@   assigns nothing
+
+//@ func evalComparisonOperator
+//@   props C03 C09
+//@   requires node != nil
+//@   preserves node
+//@   ensures [C03:error-propagates] (ret("eval#0", 1) != nil ==> r1 == ret("eval#0", 1)) && ((ret("eval#0", 1) == nil && ret("eval#1", 1) != nil) ==> r1 == ret("eval#1", 1))
+//@   ensures [C03:non-comparable-lhs] (ret("eval#0", 1) == nil && ret("eval#1", 1) == nil && orderingOp(node.Type) && valid(ret("eval#0", 0)) && !isNumV(ret("eval#0", 0)) && !isStrV(ret("eval#0", 0))) ==> (evalErrIs(r1, ErrNonComparableLHS) && !valid(r0))
+//@   ensures [C03:non-comparable-rhs] (ret("eval#0", 1) == nil && ret("eval#1", 1) == nil && orderingOp(node.Type) && (!valid(ret("eval#0", 0)) || isNumV(ret("eval#0", 0)) || isStrV(ret("eval#0", 0))) && valid(ret("eval#1", 0)) && !isNumV(ret("eval#1", 0)) && !isStrV(ret("eval#1", 0))) ==> (evalErrIs(r1, ErrNonComparableRHS) && !valid(r0))
+//@   ensures [C03:number-vs-string] (ret("eval#0", 1) == nil && ret("eval#1", 1) == nil && orderingOp(node.Type) && ((isNumV(ret("eval#0", 0)) && isStrV(ret("eval#1", 0))) || (isStrV(ret("eval#0", 0)) && isNumV(ret("eval#1", 0))))) ==> (evalErrIs(r1, ErrTypeMismatch) && !valid(r0))
+//@   ensures [C03:missing-is-false] (ret("eval#0", 1) == nil && ret("eval#1", 1) == nil && r1 == nil && (!valid(ret("eval#0", 0)) || !valid(ret("eval#1", 0)))) ==> (kind(r0) == 1 && !bval(r0))
+//@   ensures [C03:less] (ret("eval#0", 1) == nil && ret("eval#1", 1) == nil && isF64V(ret("eval#0", 0)) && isF64V(ret("eval#1", 0)) && node.Type == jparse.ComparisonLess) ==> (r1 == nil && kind(r0) == 1 && bval(r0) == (fval(res(ret("eval#0", 0))) < fval(res(ret("eval#1", 0)))))
+//@   ensures [C03:greater-equal] (ret("eval#0", 1) == nil && ret("eval#1", 1) == nil && isF64V(ret("eval#0", 0)) && isF64V(ret("eval#1", 0)) && node.Type == jparse.ComparisonGreaterEqual) ==> (r1 == nil && kind(r0) == 1 && bval(r0) == !(fval(res(ret("eval#0", 0))) < fval(res(ret("eval#1", 0)))))
+//@   ensures [C03:less-equal] (ret("eval#0", 1) == nil && ret("eval#1", 1) == nil && isF64V(ret("eval#0", 0)) && isF64V(ret("eval#1", 0)) && node.Type == jparse.ComparisonLessEqual) ==> (r1 == nil && kind(r0) == 1 && bval(r0) == (fval(res(ret("eval#0", 0))) <= fval(res(ret("eval#1", 0)))))
+//@   ensures [C03:greater] (ret("eval#0", 1) == nil && ret("eval#1", 1) == nil && isF64V(ret("eval#0", 0)) && isF64V(ret("eval#1", 0)) && node.Type == jparse.ComparisonGreater) ==> (r1 == nil && kind(r0) == 1 && bval(r0) == !(fval(res(ret("eval#0", 0))) <= fval(res(ret("eval#1", 0)))))
+//@   ensures [C03:equal] (ret("eval#0", 1) == nil && ret("eval#1", 1) == nil && isF64V(ret("eval#0", 0)) && isF64V(ret("eval#1", 0)) && node.Type == jparse.ComparisonEqual) ==> (r1 == nil && kind(r0) == 1 && bval(r0) == (fval(res(ret("eval#0", 0))) == fval(res(ret("eval#1", 0)))))
+//@   ensures [C03:not-equal] (ret("eval#0", 1) == nil && ret("eval#1", 1) == nil && isF64V(ret("eval#0", 0)) && isF64V(ret("eval#1", 0)) && node.Type == jparse.ComparisonNotEqual) ==> (r1 == nil && kind(r0) == 1 && bval(r0) == !(fval(res(ret("eval#0", 0))) == fval(res(ret("eval#1", 0)))))
+//@   ensures [C03:string-equal] (ret("eval#0", 1) == nil && ret("eval#1", 1) == nil && isStrV(ret("eval#0", 0)) && isStrV(ret("eval#1", 0)) && node.Type == jparse.ComparisonEqual) ==> (r1 == nil && kind(r0) == 1 && bval(r0) == streq(sval(res(ret("eval#0", 0))), sval(res(ret("eval#1", 0)))))
+
+// arrayify: arrays are unwrapped, 'no value' becomes the empty array, anything else a one-element array
+//@ func arrayify
+//@   props C03 C09 C02
+//@   requires ifaceable(v)
+//@   ensures arrKind(kind(result)) && canif(result)
+//@   ensures arrKind(kind(res(v))) ==> result == res(v)
+//@   ensures !valid(v) ==> rvlen(result) == 0
+//@   ensures (valid(v) && !arrKind(kind(res(v)))) ==> rvlen(result) == 1
+//@   assigns nothing
+
+// `in`: membership by = over the (arrayified) right-hand side
+//@ func in
+//@   props C03 C09
+//@   requires ifaceable(lhs) && ifaceable(rhs)
+//@   ensures [C03:in-empty] !valid(rhs) ==> !result
+//@   ensures [C03:membership] result == (exists j in [0, rvlen(ret("arrayify#0", 0))): ufb_valeq(lhs, at(ret("arrayify#0", 0), j)))
+//@   assigns nothing
+//@   loop 0 invariant 0 <= i && i <= N
+//@   loop 0 invariant N == rvlen(rhs)
+//@   loop 0 invariant arrKind(kind(rhs)) && canif(rhs)
+//@   loop 0 invariant rhs == ret("arrayify#0", 0)
+//@   loop 0 invariant forall j in [0, i): !ufb_valeq(lhs, at(rhs, j))
+
+// and / or: combine the boolean casts of both operands. ufb_truthy names jlib.Boolean's result (see jlib contracts).
+//@ func evalBooleanOperator
+//@   props C03 C09
+//@   requires node != nil
+//@   preserves node
+//@   ensures [C03:error-propagates] (ret("eval#0", 1) != nil ==> r1 == ret("eval#0", 1)) && ((ret("eval#0", 1) == nil && ret("eval#1", 1) != nil) ==> r1 == ret("eval#1", 1))
+//@   ensures [C03:and] (ret("eval#0", 1) == nil && ret("eval#1", 1) == nil && node.Type == jparse.BooleanAnd) ==> (r1 == nil && kind(r0) == 1 && bval(r0) == (ufb_truthy(ret("eval#0", 0)) && ufb_truthy(ret("eval#1", 0))))
+//@   ensures [C03:or] (ret("eval#0", 1) == nil && ret("eval#1", 1) == nil && node.Type == jparse.BooleanOr) ==> (r1 == nil && kind(r0) == 1 && bval(r0) == (ufb_truthy(ret("eval#0", 0)) || ufb_truthy(ret("eval#1", 0))))
+
+// &: concatenates the string forms of its operands; a missing operand is the empty string
+//@ pred strOperand(v reflect.Value) = valid(v) && canif(v)
+//@ func evalStringConcatenation
+//@   props C03 C09
+//@   requires node != nil
+//@   preserves node
+//@   precise-append
+//@   ensures [C03:error-propagates] (ret("eval#0", 1) != nil ==> r1 == ret("eval#0", 1)) && ((ret("eval#0", 1) == nil && ret("eval#1", 1) != nil) ==> r1 == ret("eval#1", 1))
+//@   ensures [C03:stringify-error] (ret("eval#0", 1) == nil && ret("eval#1", 1) == nil && strOperand(ret("eval#0", 0)) && ret("String#0", 1) != nil) ==> (r1 == ret("String#0", 1) && !valid(r0))
+//@   ensures [C03:concat-both] (ret("eval#0", 1) == nil && ret("eval#1", 1) == nil && strOperand(ret("eval#0", 0)) && strOperand(ret("eval#1", 0)) && ret("String#0", 1) == nil && ret("String#1", 1) == nil) ==> (r1 == nil && kind(r0) == 24 && len(sval(r0)) == len(ret("String#0", 0)) + len(ret("String#1", 0)) && (forall i in [0, len(ret("String#0", 0))): sval(r0)[i] == ret("String#0", 0)[i]) && (forall i in [0, len(ret("String#1", 0))): sval(r0)[len(ret("String#0", 0)) + i] == ret("String#1", 0)[i]))
+//@   ensures [C03:concat-missing-lhs] (ret("eval#0", 1) == nil && ret("eval#1", 1) == nil && !valid(ret("eval#0", 0)) && strOperand(ret("eval#1", 0)) && ret("String#1", 1) == nil) ==> (r1 == nil && kind(r0) == 24 && len(sval(r0)) == len(ret("String#1", 0)) && (forall i in [0, len(ret("String#1", 0))): sval(r0)[i] == ret("String#1", 0)[i]))
+//@   ensures [C03:concat-missing-rhs] (ret("eval#0", 1) == nil && ret("eval#1", 1) == nil && strOperand(ret("eval#0", 0)) && !valid(ret("eval#1", 0)) && ret("String#0", 1) == nil) ==> (r1 == nil && kind(r0) == 24 && len(sval(r0)) == len(ret("String#0", 0)) && (forall i in [0, len(ret("String#0", 0))): sval(r0)[i] == ret("String#0", 0)[i]))
+//@   ensures [C03:concat-missing-both] (ret("eval#0", 1) == nil && ret("eval#1", 1) == nil && !valid(ret("eval#0", 0)) && !valid(ret("eval#1", 0))) ==> (r1 == nil && kind(r0) == 24 && len(sval(r0)) == 0)
+
+// [a..b]: the integers from a to b; non-integer bounds and more than ten million items are errors
+//@ func isInteger
+//@   props C03 C09
+//@   ensures result == (x == trunc(x))
+//@   assigns nothing
+
+//@ func evalRange
+//@   props C03 C09
+//@   requires node != nil
+//@   preserves node
+//@   ensures [C03:error-propagates] (ret("eval#0", 1) != nil ==> r1 == ret("eval#0", 1)) && ((ret("eval#0", 1) == nil && ret("eval#1", 1) != nil) ==> r1 == ret("eval#1", 1))
+//@   ensures [C03:non-integer-lhs] (ret("eval#0", 1) == nil && ret("eval#1", 1) == nil && valid(ret("eval#0", 0)) && (!isNumV(ret("eval#0", 0)) || (isF64V(ret("eval#0", 0)) && !(fval(res(ret("eval#0", 0))) == trunc(fval(res(ret("eval#0", 0)))))))) ==> (evalErrIs(r1, ErrNonIntegerLHS) && !valid(r0))
+//@   ensures [C03:non-integer-rhs] (ret("eval#0", 1) == nil && ret("eval#1", 1) == nil && (!valid(ret("eval#0", 0)) || (isF64V(ret("eval#0", 0)) && fval(res(ret("eval#0", 0))) == trunc(fval(res(ret("eval#0", 0)))))) && valid(ret("eval#1", 0)) && (!isNumV(ret("eval#1", 0)) || (isF64V(ret("eval#1", 0)) && !(fval(res(ret("eval#1", 0))) == trunc(fval(res(ret("eval#1", 0)))))))) ==> (evalErrIs(r1, ErrNonIntegerRHS) && !valid(r0))
+//@   ensures [C03:missing-is-empty] (ret("eval#0", 1) == nil && ret("eval#1", 1) == nil && r1 == nil && (!valid(ret("eval#0", 0)) || !valid(ret("eval#1", 0)))) ==> !valid(r0)
+//@   ensures [C03:descending-is-empty] (ret("eval#0", 1) == nil && ret("eval#1", 1) == nil && r1 == nil && isF64V(ret("eval#0", 0)) && isF64V(ret("eval#1", 0)) && fval(res(ret("eval#0", 0))) > fval(res(ret("eval#1", 0)))) ==> !valid(r0)
+//@   ensures [C03:size-limit] (r1 == nil && valid(r0)) ==> (kind(r0) == 23 && 1 <= rvlen(r0) && rvlen(r0) <= 10000000)
+//@   ensures [C03:size-error] (r1 != nil && ret("eval#0", 1) == nil && ret("eval#1", 1) == nil) ==> (!valid(r0) && (evalErrIs(r1, ErrNonIntegerLHS) || evalErrIs(r1, ErrNonIntegerRHS) || evalErrIs(r1, ErrMaxRangeItems)))
+//@   loop 0 invariant 0 <= i && i <= size && kind(results) == 23 && rvlen(results) == size && canif(results)
+
+// c ? x : y: only the branch chosen by the boolean cast of c is evaluated (eval#1 is the Then call site, eval#2 the Else one)
+//@ func evalConditional
+//@   props C03 C09
+//@   requires node != nil
+//@   preserves node
+//@   ensures [C03:error-propagates] ret("eval#0", 1) != nil ==> (r1 == ret("eval#0", 1) && !valid(r0))
+//@   ensures [C03:then] (ret("eval#0", 1) == nil && ufb_truthy(ret("eval#0", 0))) ==> (r0 == ret("eval#1", 0) && r1 == ret("eval#1", 1))
+//@   ensures [C03:else] (ret("eval#0", 1) == nil && !ufb_truthy(ret("eval#0", 0)) && node.Else != nil) ==> (r0 == ret("eval#2", 0) && r1 == ret("eval#2", 1))
+//@   ensures [C03:no-else] (ret("eval#0", 1) == nil && !ufb_truthy(ret("eval#0", 0)) && node.Else == nil) ==> (!valid(r0) && r1 == nil)
+//@   atcall[C03:lazy-then] eval#1 requires ufb_truthy(ret("eval#0", 0)) && callee_node == node.Then
+//@   atcall[C03:lazy-else] eval#2 requires !ufb_truthy(ret("eval#0", 0)) && callee_node == node.Else
+
+//@ pred orderingOp(op jparse.ComparisonOperator) = op == jparse.ComparisonLess || op == jparse.ComparisonLessEqual || op == jparse.ComparisonGreater || op == jparse.ComparisonGreaterEqual
 
 // --- C03: numeric operators -------------------------------------------------------------------------
 // Statement: + - * / % compute the IEEE-754 double result (% = truncated remainder, sign of the dividend);
